@@ -21,11 +21,16 @@ func (c18TimeoutErr) Error() string   { return "c18conn: i/o timeout" }
 func (c18TimeoutErr) Timeout() bool   { return true }
 func (c18TimeoutErr) Temporary() bool { return true }
 
+type c18Unit struct {
+	b   []byte
+	tag any
+}
+
 type c18Conn struct {
 	id        int
 	mu        sync.Mutex
 	cond      *sync.Cond
-	rbuf      []byte // produced by the server, not yet read by the client
+	rq        []c18Unit // produced by the server, not yet (completely) read by the client; a Read never spans two units
 	wbuf      []byte // written by the client, not yet a complete request
 	closed    bool   // client called Close
 	srvClosed bool   // server closed: Read returns EOF once rbuf is drained
@@ -34,7 +39,11 @@ type c18Conn struct {
 
 	onReq    func(c *c18Conn, req []byte) // called outside c.mu for every complete request
 	onClose  func(c *c18Conn)             // called at the very beginning of the first Close
+	onPull   func(c *c18Conn, tag any)    // called (under c.mu) when Read has drained a tagged unit
+	onEOF    func(c *c18Conn)             // called (under c.mu) the first time Read returns EOF
+	eofSeen  bool
 	writeErr error                        // if set, Write fails (after recording the attempt)
+	fastTimeout bool                      // Read fails with a timeout at once when a read deadline is set and no data is buffered
 
 	nWriteCalls int // Write calls that carried at least one byte
 	nWritten    int // bytes accepted
@@ -85,16 +94,30 @@ func (c *c18Conn) Read(p []byte) (int, error) {
 		if c.closed {
 			return 0, net.ErrClosed
 		}
-		if len(c.rbuf) > 0 {
-			n := copy(p, c.rbuf)
-			c.rbuf = c.rbuf[n:]
+		for len(c.rq) > 0 && len(c.rq[0].b) == 0 {
+			c.rq = c.rq[1:]
+		}
+		if len(c.rq) > 0 {
+			n := copy(p, c.rq[0].b)
+			c.rq[0].b = c.rq[0].b[n:]
 			c.nReadBytes += n
+			if len(c.rq[0].b) == 0 {
+				tag := c.rq[0].tag
+				c.rq = c.rq[1:]
+				if tag != nil && c.onPull != nil {
+					c.onPull(c, tag)
+				}
+			}
 			return n, nil
 		}
 		if c.srvClosed {
+			if !c.eofSeen && c.onEOF != nil {
+				c.eofSeen = true
+				c.onEOF(c)
+			}
 			return 0, io.EOF
 		}
-		if !c.rdl.IsZero() && !time.Now().Before(c.rdl) {
+		if !c.rdl.IsZero() && (c.fastTimeout || !time.Now().Before(c.rdl)) {
 			return 0, c18TimeoutErr{}
 		}
 		c.cond.Wait()
@@ -184,9 +207,11 @@ func (c *c18Conn) Close() error {
 }
 
 // server side
-func (c *c18Conn) push(b []byte) {
+func (c *c18Conn) push(b []byte) { c.pushTag(b, nil) }
+
+func (c *c18Conn) pushTag(b []byte, tag any) {
 	c.mu.Lock()
-	c.rbuf = append(c.rbuf, b...)
+	c.rq = append(c.rq, c18Unit{b: append([]byte(nil), b...), tag: tag})
 	c.cond.Broadcast()
 	c.mu.Unlock()
 }
@@ -201,7 +226,11 @@ func (c *c18Conn) srvClose() {
 func (c *c18Conn) unread() int {
 	c.mu.Lock()
 	defer c.mu.Unlock()
-	return len(c.rbuf)
+	n := 0
+	for _, u := range c.rq {
+		n += len(u.b)
+	}
+	return n
 }
 
 func (c *c18Conn) stats() (writeCalls, reqs, closes int) {
